@@ -273,9 +273,9 @@ _INTERESTING = {
     "dwt_depth_ho": [0, 1, 2, 3, 4, 5],
     "slices_x": [0, 1, 2, 3, 4, 8, 16, 17],
     "slices_y": [0, 1, 2, 3, 4, 8, 16, 17],
-    "slice_prefix_bytes": [0, 1, 2, 3, 65],
-    "slice_size_scaler": [0, 1, 2, 3, 4, 65],
-    "slice_bytes_numerator": [0, 1, 2, 5, 17, 100, 5000],
+    "slice_prefix_bytes": [0, 1, 2, 3, 65, 1 << 16, 1 << 32, (1 << 63) - 1, 1 << 63, 1 << 64],
+    "slice_size_scaler": [0, 1, 2, 3, 4, 65, 1 << 16, 1 << 32, 1 << 63, 1 << 64],
+    "slice_bytes_numerator": [0, 1, 2, 5, 17, 100, 5000, 1 << 32, 1 << 63, 1 << 64],
     "slice_bytes_denominator": [0, 1, 2, 3, 7],
     "frame_width": [0, 1, 2, 3, 4, 7, 8, 16, 64, 65, 1000],
     "frame_height": [0, 1, 2, 3, 4, 7, 8, 16, 64, 65, 1000],
